@@ -196,6 +196,8 @@ class LocalMonitor:
         g['wrong_actual'] = F
         g['reports_on_another_target'] = F   # an Ok / Invalidated whose subject is not the emitting target itself
         g['proc_left_at_exit'] = F    # the actor returned while a process it spawned was still running (nobody is left to stop it)
+        g['told_ok'] = F              # the last announcement about itself that the target emitted (own kind) was Ok, not Invalidated
+        g['failed_while_acknowledged'] = F   # C07: an execution failed while the target's last announcement to its requesters was Ok (no Invalidated since)
         g['attempted'] = F            # decided to start / tried to spawn at least once
         g['idle_although_ready'] = F  # C04 (state predicate, not sticky): one-shot, the target is wanted, every dependency's last word is Ok, and it has neither started nor acknowledged
         g['withheld_request'] = F     # C17: the target is wanted, and a declared dependency has not been asked for anything (its start waits for somebody else's message)
@@ -319,6 +321,13 @@ class LocalMonitor:
                 asked = sent[kind] if kindme == 'aggregate' else z3.Or(sent['Build'], sent['Service'])
                 g2['withheld_request'] = z3.Or(g2['withheld_request'], z3.And(S2['alive.%d' % me], wanted, sysm.dep[me][d], z3.Not(asked)))
         if kindme != 'aggregate':
+            ownk = 'Build' if kindme == 'build' else 'Service'
+            failed_now = z3.Or(obs.get('build_result', (me, 3)), obs.get('spawn_failed', me), obs.any('emit_err'))
+            e_ok = obs.any('emit', lambda key: key[0] == me and key[2] == ('Ok', ownk, mename))
+            e_inv = obs.any('emit', lambda key: key[0] == me and key[2] == ('Invalidated', ownk, mename))
+            g2['told_ok'] = z3.If(e_inv, F, z3.If(e_ok, T, g['told_ok']))
+            # (an Ok emitted in the very step of the failure is ok_on_fail's business)
+            g2['failed_while_acknowledged'] = z3.Or(g['failed_while_acknowledged'], z3.And(failed_now, g['told_ok'], z3.Not(e_inv)))
             g2['attempted'] = z3.Or(g['attempted'], decide, obs.get('spawn_failed', me))
         if not self.watch:
             alive2 = S2['alive.%d' % me]
